@@ -657,6 +657,62 @@ def do_session(ctx, kind, ops, specs, keys, lines, impls, cases, label):
 KEY_AUG = "AugmentedFlowProposal.inverse_rescale:augment-parameters-nan"
 
 
+def aug_marginal_locality(ctx):
+    """AugmentedFlowProposal._marginalise_augment (marginalise_augment=True, n_marg > 1) with a real (tiny, perturbed) flow:
+    the marginal density attached to point i is a function of point i and of ITS n_marg augment draws only — changing the
+    other points of the batch must not change it, and it equals log mean_k q(x_i, e_ik)/N(e_ik) recomputed point by point
+    (seeded change C09-eB: the batch of realisations was built with np.tile while the reduction assumes np.repeat, so every
+    point was weighted by the densities of other points and the pool no longer follows the prior in the contour)"""
+    import torch
+    from scipy import stats
+    from scipy.special import logsumexp
+    model = make_model()
+    for n_marg in (2, 5):
+        p = build_flow_proposal(model, True, False, marginalise=True)
+        p.n_marg = n_marg
+        with torch.no_grad():
+            g = torch.Generator().manual_seed(11 + n_marg)
+            for prm in p.flow.model.parameters():
+                prm.add_(0.3 * torch.randn(prm.shape, generator=g))
+        p.flow.model.eval()
+        rng = np.random.default_rng(5)
+        d = p.rescaled_dims if hasattr(p, "rescaled_dims") else 3
+        X = rng.normal(size=(6, d))
+        state = np.random.get_state()
+        try:
+            np.random.seed(123)
+            out1 = np.asarray(p._marginalise_augment(X.copy()), dtype=float)
+            X2 = X.copy()
+            X2[1:] = rng.normal(size=(5, d)) * 3.0 + 2.0          # every point but the first replaced
+            np.random.seed(123)
+            out2 = np.asarray(p._marginalise_augment(X2.copy()), dtype=float)
+            # point-by-point recomputation with the same draws, one point per call (no batch layout involved)
+            np.random.seed(123)
+            E = np.random.randn(6 * n_marg, p.augment_dims)
+            want = []
+            for i in range(6):
+                rows = np.repeat(X[i:i + 1], n_marg, axis=0)
+                rows[:, -p.augment_dims:] = E[i * n_marg:(i + 1) * n_marg]
+                _, lp = p.flow.forward_and_log_prob(rows)
+                le = np.sum(stats.norm.logpdf(rows[:, -p.augment_dims:]), axis=1)
+                want.append(-np.log(n_marg) + logsumexp(np.asarray(lp, dtype=float) - le))
+        finally:
+            np.random.set_state(state)
+        case = dict(layer="aug-marginal", n_marg=n_marg)
+        if out1.shape != (6,) or not np.isfinite(out1).all():
+            ctx.oracle_fail("AugmentedFlowProposal._marginalise_augment:shape", f"returned {out1!r} for 6 points", case)
+        else:
+            if abs(out1[0] - out2[0]) > 1e-6 * max(1.0, abs(out1[0])):
+                ctx.oracle_fail("AugmentedFlowProposal._marginalise_augment:locality",
+                                f"the marginal log-density of a point changed from {out1[0]!r} to {out2[0]!r} when only the OTHER points of "
+                                "the batch were replaced (same augment draws)", case)
+            if not np.allclose(out1, want, rtol=1e-5, atol=1e-5):
+                i = int(np.argmax(np.abs(out1 - np.array(want))))
+                ctx.oracle_fail("AugmentedFlowProposal._marginalise_augment:value",
+                                f"point {i}: marginal log-density {out1[i]!r}, recomputed from its own {n_marg} realisations {want[i]!r}", case)
+        ctx.case(("aug-marginal", n_marg), True, case, kind="aug-marginal")
+
+
 def aug_default_probe(ctx):
     """AugmentedFlowProposal in its default mode (marginalise_augment=False) on three identical good batches: the
     property needs a population of N=1 to complete"""
@@ -1366,6 +1422,7 @@ def correspond(ctx):
                 do_session(ctx, kind, ops, specs, keys, lines, impls, cases, kind + (":malformed" if malformed else ""))
         direct_calls(ctx, lines, impls, cases)
         aug_default_probe(ctx)
+        aug_marginal_locality(ctx)
         ins_cases(ctx, lines, impls, cases)
         ctx.diff_model(lines, impls, cases)
         radial_oracle(ctx)
